@@ -70,11 +70,18 @@ def push(cfg, crate, rep):
     rep.fn(fn)
     I = Interp(crate)
     I.run_fn(fn)
-    m = [(t, k, p, n, c) for t, k, p, n, f, c in I.muts if f == fn]
+    # `entries.entry(k)` is a lookup (the updates it leads to are logged as inserts of the slot's map and key)
+    m = [(t, k, p, n, c) for t, k, p, n, f, c in I.muts if f == fn and not k.endswith(("HashMap::entry", "BTreeMap::entry"))]
     key = "%s|%s" % (cfg, fn)
-    rep.ob("C20.push", key + "|two-updates", len(m) == 2, "push performs exactly one list update and one map update", found=[(core(x[0]).r(), x[1]) for x in m])
     app = [x for x in m if core(x[0]).r() == "self.order"]
     ins = [x for x in m if core(x[0]).r() == "self.entries"]
+    # one list update; the map update may be written once or once per (exclusive) case
+    ins_cover = F.Or(*[x[4] for x in ins]) if ins else False
+    excl = all(F.And(a[4], b[4]) is False or not F.counterexamples(F.And(a[4], b[4]), False, "implies") for i, a in enumerate(ins) for b in ins[i + 1:])
+    same = len({(x[1], core(x[2][0]).r(), core(x[2][1]).r() if len(x[2]) > 1 else "") for x in ins}) == 1
+    rep.ob("C20.push", key + "|two-updates", len(app) == 1 and len(ins) >= 1 and len(m) == len(app) + len(ins) and excl and same, "push performs exactly one list update and one map update (the latter possibly spelt once per exclusive case)", found=[(core(x[0]).r(), x[1], F.show(x[4])[:60]) for x in m])
+    if ins and same and excl:
+        ins = [(ins[0][0], ins[0][1], ins[0][2], ins[0][3], True if (ins_cover is True or not F.counterexamples(True, ins_cover, "implies")) else ins_cover)]
     if len(app) == 1:
         t, k, p, n, c = app[0]
         ok_m = k.endswith("Vec::push") and places(p[0]) == {"ty"} and not [r for r in roots(p[0]) if r.startswith("op:")]
@@ -93,7 +100,8 @@ def push(cfg, crate, rep):
     # order of the two updates: the presence test must precede the insert
     if len(app) == 1 and len(ins) == 1:
         idx = [i for i, x in enumerate(m)]
-        rep.ob("C20.push", key + "|test-before-insert", m.index(app[0]) < m.index(ins[0]), "the absence test/append happens before the insert (afterwards the key is always present)")
+        first_ins = min(i for i, x in enumerate(m) if core(x[0]).r() == "self.entries")
+        rep.ob("C20.push", key + "|test-before-insert", m.index(app[0]) < first_ins, "the absence test/append happens before the insert (afterwards the key is always present)")
 
 
 def remove(cfg, crate, rep):
